@@ -273,8 +273,9 @@ def falsify(ctx, deep=False):
     rng = ctx["rng"]
     n = 30 if deep else 6
     viols, worst = [], {}
-    for i in range(n):
+    for i_ in range(n + 3):
         inp = gen_input(rng)
+        i = i_ - n if i_ >= n else -1          # the three forced inputs come after (not instead of) the random ones
         if i == 0:
             inp.update({"N": 8, "delta": 150.0})
         if i in (1, 2):
@@ -323,7 +324,7 @@ def falsify(ctx, deep=False):
     for v in viols:
         if v["clause"] not in seen:
             seen.add(v["clause"]); keep.append(v)
-    return keep, {"evaluations": n, "max_error_per_clause": worst}
+    return keep, {"evaluations": n + 3, "max_error_per_clause": worst}
 
 
 def replay(payload):
